@@ -78,6 +78,7 @@ std::string run(const std::vector<std::string> & a)
         for (const std::string & gs : split(a[1], '/')) { group g; if (!parse_group(gs, g)) return "bad-op"; groups.push_back(g); }
     ctl_server srv;
     srv.start(false, 13, false);
+    srv.core.implicit_data = true;
     { std::lock_guard<std::mutex> l(srv.mu); srv.core.begin_op(groups); }
 
     // working directory
@@ -129,10 +130,27 @@ std::string run(const std::vector<std::string> & a)
         // read stdout with a deadline
         fcntl(out[0], F_SETFL, O_NONBLOCK);
         auto t0 = std::chrono::steady_clock::now();
+        // The client has no time-outs: when it waits for a reply and the script has nothing more to say it would block for
+        // ever.  The model's control stream simply ends there (end-of-file); the real server does the same: once the child
+        // has been blocked in recv() for a while, the server has answered everything it received and no data transfer is
+        // running, the server closes the control connection.
+        std::string last_sys; int same = 0;
+        auto blocked_in_recv = [&]() -> bool {
+            std::ifstream f("/proc/" + std::to_string(pid) + "/syscall");
+            std::string s; std::getline(f, s);
+            bool in_recv = s.rfind("45 ", 0) == 0 || s.rfind("47 ", 0) == 0;      // recvfrom / recvmsg (x86-64)
+            if (in_recv && s == last_sys) same++; else same = 0;
+            last_sys = s;
+            return in_recv && same >= 5;
+        };
         for (;;)
         {
             pollfd p{out[0], POLLIN, 0};
-            int pr = ::poll(&p, 1, 200);
+            int pr = ::poll(&p, 1, 100);
+            if (pr == 0 && blocked_in_recv() && srv.idle && (!srv.core.peer.worker.joinable() || srv.core.peer.done))
+            {
+                srv.kick = true; same = 0;
+            }
             if (pr > 0)
             {
                 char b[4096]; ssize_t r = ::read(out[0], b, sizeof b);
@@ -152,7 +170,7 @@ std::string run(const std::vector<std::string> & a)
     std::string cmds; int conns = 0;
     {
         std::lock_guard<std::mutex> l(srv.mu);
-        for (const std::string & c : srv.core.commands) { if (c == "<connect>") { conns++; continue; } if (!cmds.empty()) cmds += ","; cmds += hex(c); }
+        for (const std::string & c : srv.core.commands) { if (c == "<connect>") { conns++; continue; } if (!cmds.empty()) cmds += ","; cmds += hex(replace_all(c, std::to_string(srv.port), "$PORT")); }
     }
     std::string res;
     {
@@ -160,6 +178,8 @@ std::string run(const std::vector<std::string> & a)
         for (const std::string & r : srv.core.resolved) { if (!res.empty()) res += "/"; res += r; }
     }
     data_peer & p = srv.core.peer;
+    // the model knows the server's port as the literal "$PORT" (ephemeral ports have five digits; data ports differ)
+    so = replace_all(so, std::to_string(srv.port), "$PORT");
     std::string outp = "exit:" + ex + " out:" + hex(so) + " err:" + hex(se) + " srv:" + (cmds.empty() ? "-" : cmds) + " conns:" + std::to_string(conns)
         + " before:" + before + " fs:" + after + " played:" + (res.empty() ? "-" : res)
         + " peer:" + std::to_string(p.received.size()) + ":" + std::to_string(fnv(p.received));
